@@ -13,6 +13,7 @@ from common import Outcome, finish, lean_batch, proof_status, quiet, rng, scratc
 
 PROP = "C19"
 ILL_FORMED = "uml-protocolstack-ill-formed-operations"
+UNPACKAGED = "uml-element-outside-package"
 TRUSTED = [
     "Lean 4.33 kernel; axioms propext, Classical.choice, Quot.sound only",
     "Model/Uml is hand-written after umlgen.py (kind dispatch, template selection and file naming, namespace folders, project files) and the nested-namespace formatters of LanguageCPP / LanguageCsharp; "
@@ -135,12 +136,18 @@ def run(tier):
                 removed = any(o[0] == "remove-class" for o in ops)
                 if removed:
                     oc.stat("compile_oracle_skipped_dangling_types")
-                bad = cpp_checks(oc, out, cd, info, compile_ok=(diagram != "ProtocolStack" and not removed))
+                # recorded finding: an element outside any package has NAMESPACE == '' and the generator strips
+                # NAMESPACE + '::' from every referenced type (all '::' vanish): includes and base-class names break
+                unpackaged = any(e[1] == "" for e in elems)
+                bad = cpp_checks(oc, out, cd, info, compile_ok=(diagram != "ProtocolStack" and not removed and not unpackaged))
+                if unpackaged and bad and not removed:
+                    import findings
+                    findings.record(oc, PROP, UNPACKAGED, True, dict(files=[b[0] for b in bad][:3], edits=ops))
                 if diagram == "ProtocolStack":
                     import findings
                     # the recorded witness: the interface's operation named like the class, and its static abstract operation
                     only_known = bool(bad) and all(("constructors cannot be declared" in str(b[1])) or ("initializer specified for static member function" in str(b[1])) for b in bad)
-                    if removed:
+                    if removed or unpackaged:
                         pass
                     elif bad and only_known:
                         findings.record(oc, PROP, ILL_FORMED, True, dict(files=[b[0] for b in bad][:3]))
